@@ -1,6 +1,7 @@
 package vsim
 
 import (
+	"context"
 	"fmt"
 	"strings"
 	"time"
@@ -22,6 +23,10 @@ func famClose(w *World) {
 	w.linkDefaults()
 	nn := 2 + scn(2)
 	withRelay := scnChance(1, 3)
+	pingers := 0
+	if scnChance(1, 3) {
+		pingers = 1 + scn(4)
+	}
 	var spy *SpyRelayHost
 	var relayNode *Node
 	for i := 0; i < nn; i++ {
@@ -47,7 +52,7 @@ func famClose(w *World) {
 	}
 	victim := w.Nodes[scn(len(w.Nodes))]
 	closeAt := time.Duration(scn(60)) * w.Grid
-	w.describe("close nodes=%d relay=%v victim=%s closeAt=%v closers=%d", nn, withRelay, victim.Name, closeAt, closers)
+	w.describe("close nodes=%d relay=%v victim=%s closeAt=%v closers=%d pings=%d", nn, withRelay, victim.Name, closeAt, closers, pingers)
 
 	maxTimeout := time.Duration(0)
 	var fs []func()
@@ -163,6 +168,36 @@ func famClose(w *World) {
 			})
 		}
 		w.probe("C07.outbound-holder-planned")
+	}
+	// pings in both directions around the close (a peer's health check, an application's
+	// liveness probe): a ping may fail; it must not hurt the calls that are draining, nor
+	// leave anything behind
+	for k := 0; k < pingers; k++ {
+		a := w.Nodes[scn(nn)]
+		b := w.Nodes[(indexOf(w.Nodes, a)+1+scn(nn-1))%nn]
+		if scnChance(1, 2) {
+			a, b = victim, a
+			if b == victim {
+				b = w.Nodes[(indexOf(w.Nodes, victim)+1)%nn]
+			}
+		} else if scnChance(1, 2) && a != victim {
+			b = victim
+		}
+		at := closeAt + time.Duration(scn(80)-5)*w.Grid
+		if at < 0 {
+			at = 0
+		}
+		if a.Opts.Relay != nil || b.Opts.Relay != nil {
+			continue
+		}
+		w.describe("ping %s->%s at=%v", a.Name, b.Name, at)
+		fs = append(fs, func() {
+			sleep(at)
+			ctx, cancel := context.WithTimeout(context.Background(), time.Duration(5+scn(40))*w.Grid)
+			a.Ch.Ping(ctx, b.HostPort)
+			cancel()
+			w.probe("C07.ping-around-close")
+		})
 	}
 	for k := 0; k < closers; k++ {
 		d := closeAt + time.Duration(scn(6)*k)*w.Grid
@@ -307,6 +342,13 @@ func (w *World) checkCloseOracles(v *Node) {
 		if strings.Contains(tchannel.GetSystemErrorMessage(r.Err), "-conn-slow") {
 			continue // a relay dropped the call because a (configured, tiny) send buffer was full: not Close's doing
 		}
+		if strings.Contains(tchannel.GetSystemErrorMessage(r.Err), "send buffer is full") || (w.PingSendFailed && tchannel.GetSystemErrorCode(r.Err) == tchannel.ErrCodeNetwork) {
+			// a ping (or another control message) could not be queued on a (configured, tiny) send
+			// buffer that was full of call frames: the library treats that as a failure of the
+			// connection, which ends the calls on it - a connection failure, not Close's doing
+			w.probe("C07.connection-failed-ping-on-full-send-buffer")
+			continue
+		}
 		if w.otherSideClosedFirst(r, v) {
 			continue
 		}
@@ -354,6 +396,7 @@ func (w *World) checkCloseOracles(v *Node) {
 				w.eval("C07.request-read-gets-reply")
 				replied := false
 				declined := false
+				var refusal *wire.Frame
 				for _, of := range l.Frames[outDir] {
 					if of.Err != nil || of.F.ID != tf.F.ID {
 						continue
@@ -362,6 +405,9 @@ func (w *World) checkCloseOracles(v *Node) {
 						replied = true
 						if of.F.Type == wire.TError && of.F.ErrCode == wire.ErrDeclined {
 							declined = true
+						}
+						if of.F.Type == wire.TError && refusal == nil {
+							refusal = of.F
 						}
 					}
 				}
@@ -377,6 +423,17 @@ func (w *World) checkCloseOracles(v *Node) {
 					if replied && !declined {
 						w.probe("C07.late-request-non-declined-reply")
 					}
+				}
+				if v.Opts.Relay == nil && v.closeCalledEv != 0 && replied && !declined && refusal != nil && rec != nil && !rec.H.Entered &&
+					refusal.ErrCode != wire.ErrProtocol && refusal.ErrCode != wire.ErrTimeout && rec.Spec.Mode != "blackhole" {
+					// The closing node refused a valid request for a registered handler - whether it
+					// arrived after Close or just as Close landed - but not with the declined "closed
+					// channel" error the caller (and its retry logic) is promised
+					w.eval("C07.refusal-is-declined")
+					d := fmt.Sprintf("request %s (id %d) was refused by the closing node %s (Close called #%d, request read #%d) with error code %#x %q instead of declined",
+						tag, tf.F.ID, v.Name, v.closeCalledEv, tf.REv, refusal.ErrCode, trunc(refusal.Message, 60))
+					w.violate("C07", "late-request-wrong-refusal", "%s", d)
+					w.violate("C20", "closing-peer-not-declined", "%s", d)
 				}
 				if replied {
 					continue
